@@ -126,6 +126,8 @@ func Eval(n ast.Node, env *Env) Result {
 		return val(v)
 	case ast.Paren:
 		return Eval(x.X, env)
+	case ast.Exact:
+		return Eval(x.X, env)
 	case ast.Tuple:
 		rs := make([]Result, len(x.Elems))
 		for i, e := range x.Elems {
